@@ -198,7 +198,8 @@ def lean_audit(prop_module, theorems, timeout=1200):
             return
         txt = "\n".join(buf).strip()
         if mode == "THM":
-            res.setdefault(cur, {})["statement"] = re.sub(r"\s+", " ", txt)
+            # `ℕ` / `ℤ` are Mathlib notations: whether they are printed depends on what the audited modules import, not on the statement
+            res.setdefault(cur, {})["statement"] = re.sub(r"\s+", " ", txt).replace("ℕ", "Nat").replace("ℤ", "Int")
         elif mode == "AX":
             m = re.search(r"depends on axioms: \[(.*?)\]", txt, re.S)
             if m:
